@@ -1,4 +1,5 @@
-package obitag
+// Code generated from harness/C15/closest.go by tools/sync_generated.sh; DO NOT EDIT.
+package obitag2
 
 import (
 	"git.metabarcoding.org/obitools/obitools4/obitools4/pkg/obialign"
@@ -91,7 +92,7 @@ func vAbs(a int) int {
 	return a
 }
 
-func VerifC15_SearchLoop(lq, l0, l1, l2 int) {
+func VerifC15_SearchLoop2(lq, l0, l1, l2 int) {
 	lens := []int{l0, l1, l2}
 	nref := 3
 	if l2 == 0 {
